@@ -143,7 +143,7 @@ package codegen
 //@   callspec IsPrimitive params dt
 //@       ensures result == isPrimSpec(dt)
 //@       modifies nothing
-//@   let cur = ranged(1)[rangeindex]
+//@   let cur = ranged(1)[rangeidx(1)]
 //@   let ra = ptr(*expr.AttributeExpr, objAttrSpec(obj, cur))
 //@   let exempt = ra == nil || (!attCtx.Pointer && isPrimSpec(ra.Type) && kindOf(ra.Type) != expr.BytesKind && kindOf(ra.Type) != expr.AnyKind) || (attCtx.IgnoreRequired && isPrimSpec(ra.Type))
 //@   loop 1 invariant* walks.required: att.Validation != nil && ranged(1) == att.Validation.Required && (res.arr == 0 || sinceEntry(res))
